@@ -43,6 +43,23 @@ type Item2 struct {
 
 func (Item2) TableName() string { return "items" }
 
+// Item3 declares the second key column BEFORE id: a bare key value / key list
+// condition (clause.PrimaryKey) still means the prioritized key column id.
+type Item3 struct {
+	K2   int `gorm:"primaryKey"`
+	ID   int `gorm:"primaryKey"`
+	Ca   int
+	Cb   int
+	Cs   string
+	Cn   *int
+	Ct   *string
+	Cor  int
+	Band string
+	Mark int
+}
+
+func (Item3) TableName() string { return "items" }
+
 // fin is the finisher of a chain.
 type fin struct {
 	Kind       string // find | find-pk | count | update | delete
@@ -51,6 +68,7 @@ type fin struct {
 	ViaModel   bool   // delete: key carried by Model(&Item{ID}) instead of the deleted value
 	Composite  bool   // find-pk / update: the model value is an Item2 (composite key id, k2)
 	K2         int    // second key part of the Item2 value (0 = not set)
+	AltKey     bool   // the model value is an Item3 (composite key declared k2, id) - key-less uses only
 	PK2        int    // delete via Model: key of the deleted VALUE next to the key of the Model value (0 = none)
 	Inline     *cond.Unit
 	Variant    string     // find: destination form; first: first|take|last; update: the update method
@@ -122,8 +140,11 @@ func (c tcase) String() string {
 		}
 	}
 	head := "db"
+	if c.Fin.AltKey {
+		head = "db<model Item3: key (k2, id)>"
+	}
 	if c.Fin.Cfg != "" {
-		head = "db[" + c.Fin.Cfg + "]"
+		head += "[" + c.Fin.Cfg + "]"
 	}
 	if c.Fin.Scope != nil {
 		head += ".Scopes(Where(" + c.Fin.Scope.String() + "))"
@@ -234,7 +255,22 @@ func genCase(rt *rapid.T) tcase {
 			c.Fin.Inline = cond.GenInline(rt, cfg)
 		}
 	}
+	// key-less uses of a model whose composite key lists id second
+	keyless := c.Fin.PK == 0 && c.Fin.PK2 == 0 && c.Fin.K2 == 0 && !c.Fin.Composite
+	switch {
+	case !keyless:
+	case kind == "count", kind == "pluck", kind == "update", kind == "delete", kind == "find" && c.Fin.Variant == "&[]map":
+		c.Fin.AltKey = x.Pct(30)
+	}
 	return c
+}
+
+// modelZero is the key-less model value of the case.
+func (c tcase) modelZero() interface{} {
+	if c.Fin.AltKey {
+		return &Item3{}
+	}
+	return &cond.Item{}
 }
 
 func insertRows(rows []cond.Row) []cond.InsertRow {
@@ -296,7 +332,7 @@ func run(c tcase) (outcome, error) {
 			}
 		case "&[]map":
 			var items []map[string]interface{}
-			tx := cond.ApplyCalls(start.Model(&cond.Item{}), env, c.Calls).Find(&items, inline...)
+			tx := cond.ApplyCalls(start.Model(c.modelZero()), env, c.Calls).Find(&items, inline...)
 			o.err, o.affected = tx.Error, tx.RowsAffected
 			for _, it := range items {
 				id, err := strconv.Atoi(fmt.Sprint(it["id"]))
@@ -333,7 +369,7 @@ func run(c tcase) (outcome, error) {
 		}
 	case "pluck":
 		o.ids = []int{}
-		tx := cond.ApplyCalls(start.Model(&cond.Item{}), env, c.Calls).Pluck("id", &o.ids)
+		tx := cond.ApplyCalls(start.Model(c.modelZero()), env, c.Calls).Pluck("id", &o.ids)
 		o.err, o.affected = tx.Error, tx.RowsAffected
 	case "count-find":
 		// one chain value, counted and then read
@@ -366,11 +402,14 @@ func run(c tcase) (outcome, error) {
 			o.ids = append(o.ids, it.ID)
 		}
 	case "count":
-		tx := cond.ApplyCalls(start.Model(&cond.Item{}), env, c.Calls).Count(&o.count)
+		tx := cond.ApplyCalls(start.Model(c.modelZero()), env, c.Calls).Count(&o.count)
 		o.err = tx.Error
 	case "update":
 		var tx *gorm.DB
 		var model interface{} = &cond.Item{ID: c.Fin.PK}
+		if c.Fin.AltKey {
+			model = &Item3{}
+		}
 		if c.Fin.Composite {
 			model = &Item2{ID: c.Fin.PK, K2: c.Fin.K2}
 		}
@@ -394,6 +433,11 @@ func run(c tcase) (outcome, error) {
 		o.err, o.affected = tx.Error, tx.RowsAffected
 	case "delete":
 		tx := cond.ApplyCalls(start, env, c.Calls)
+		if c.Fin.AltKey {
+			tx = tx.Delete(&Item3{}, inline...)
+			o.err, o.affected = tx.Error, tx.RowsAffected
+			break
+		}
 		if c.Fin.ViaModel {
 			tx = tx.Model(&cond.Item{ID: c.Fin.PK}).Delete(&cond.Item{ID: c.Fin.PK2}, inline...)
 		} else {
@@ -605,6 +649,9 @@ func classes(c tcase) []string {
 	}
 	if c.Fin.Cfg != "" {
 		cl = append(cl, "config:"+c.Fin.Cfg)
+	}
+	if c.Fin.AltKey {
+		cl = append(cl, "pk:composite-id-declared-second")
 	}
 	if c.Fin.Scope != nil {
 		cl = append(cl, "scope:where-in-Scopes")
